@@ -415,9 +415,12 @@ private:
 		static_assert(PrototypeInfo::index >= 0, "Can't find invoker for the given argument types.");
 		static_assert(std::tuple_size<typename PrototypeInfo::ArgsTuple>::value == 1 + sizeof...(Args), "Arguments count mismatch.");
 
+		// The event must be obtained before `first` is moved into the arguments tuple, the evaluation order of
+		// function arguments is unspecified. And `first` can't be forwarded to getEvent because it is used again below.
+		const EventType_ event = GetEvent::getEvent(first, args...);
 		doEnqueueItem(QueuedItemType(
 			PrototypeInfo::index,
-			GetEvent::getEvent(std::forward<T>(first), args...),
+			event,
 			&HeterEventQueueBase::doDispatchItem<PrototypeInfo>,
 			typename PrototypeInfo::ArgsTuple(std::forward<T>(first), std::forward<Args>(args)...)
 		));
